@@ -255,6 +255,21 @@ claim("C08",
       "under parameter-parents; duplicate parents (F20); other scipy densities.",
       "TLA+ design model checked by TLC + TLC-emitted DAGs + TLC trace validation with exact fake distributions", "5/C08")
 
+claim("C10",
+      "TLC checks BolfiPosterior.tla (query machine on the lattice mu,h integers, sigma 1..4, z -4..4: outside = -inf, inclusive bounds, "
+      "shape table, coherence of the Phi/logPhi/Mills tables, the code's gradient factor equals the slope of z on two surrogate families, "
+      "gradient operator bracketed by finite differences of the log-density operator; 3 negative controls refuted) and Surrogate.tla "
+      "(evidence, gpVersion, cacheVersion, cached, isSampling; AppendOnly, FastPathFresh; the original cache rule of finding F10 and a "
+      "prepending update refuted).  A real BolfiPosterior over a stub surrogate/prior answering lattice values is queried inside/on/outside "
+      "the bounds in scalar/1-D/2-D float and integer shapes through logpdf, gradient_logpdf, pdf; real GPyRegression objects (dims 1-3, "
+      "optimised hyper-parameters) are driven along one shortest history per abstract transition emitted by TLC and by real BOLFI "
+      "fit/sample runs; TLC validates the logs against BolfiPosterior_Trace (table arithmetic, +-2e-6) and Surrogate_Trace (fast path = GPy "
+      "model, X/Y ids append-only).",
+      "Posterior arithmetic decided on the lattice only; GPy's predict/predictive_gradients are the trusted side of clause d (tolerance "
+      "5e-6 + 1e-5 rel., measured difference 0); single-row queries on the fast path; default RBF+bias kernel; gradient outside the bounds "
+      "and threshold=None not decided.",
+      "TLA+ design models checked by TLC + TLC behaviour emission + TLC trace validation (T3 tables, differential check against GPy)", "5/C10")
+
 ALL = ["C%02d" % i for i in range(1, 21)]
 
 
